@@ -5,6 +5,7 @@ import (
 	"fmt"
 	"sort"
 	"strings"
+	"sync"
 	"time"
 
 	sasl "github.com/emersion/go-sasl"
@@ -15,7 +16,8 @@ import (
 
 func init() {
 	register(&Property{
-		ID: "C19",
+		ID:    "C19",
+		Yield: true,
 		Rule: "one negotiation per fresh client against a reactive server; exhaustively: wanted lists over {a,b,c,sasl} (all 16 subsets as configured lists plus lists with duplicates) x SASL {none, PLAIN, EXTERNAL(\"\"), EXTERNAL(id), PLAIN and EXTERNAL with credentials whose base64 contains '+' and '/'} x " +
 			"advertised subsets of {a,b,c,sasl,x} (32) x reply {ACK, NAK, ACK then later ACK of '-cap'} x SASL outcome {903, 904, 908}; plus PRNG sets of 50..300 capabilities that force the request to be split over several lines. " +
 			"A trace automaton over the wire transcript and SupportsCapability/HasCapability at sync markers checks: the union of CAP REQ arguments equals wanted-and-advertised with no capability twice and no REQ when it is empty, " +
@@ -188,6 +190,36 @@ func c19Run(c *Ctx, gen string, idx int, k c19Case) bool {
 	if err != nil {
 		c.R.Inconcl("connect: " + err.Error())
 		return false
+	}
+	if idx%4 == 1 {
+		// an application that keeps asking what is supported and held while the negotiation runs (three goroutines):
+		// its questions must not change any answer
+		stopPoll := make(chan struct{})
+		var pwg sync.WaitGroup
+		defer func() { close(stopPoll); pwg.Wait() }()
+		names := append([]string{"sasl", "a", "b", "c", "x"}, k.Wanted...)
+		for g := 0; g < 3; g++ {
+			pwg.Add(1)
+			go func(g int) {
+				defer pwg.Done()
+				for n := g; ; n++ {
+					select {
+					case <-stopPoll:
+						return
+					default:
+					}
+					if n%2 == 0 {
+						conn.HasCapability(names[n%len(names)])
+					} else {
+						conn.SupportsCapability(names[n%len(names)])
+					}
+					if n%64 == 0 {
+						runtimeGosched()
+					}
+				}
+			}(g)
+		}
+		c.R.Count("negotiations_with_polling_application_goroutines", 1)
 	}
 	disc := make(chan struct{}, 4)
 	// in half of the repeated negotiations the reconnect is made inside the DISCONNECTED handler, which then stays
